@@ -1,0 +1,13 @@
+//go:build verif
+
+package nebula
+
+// Verification hooks for the `bits` correspondence engine (add-only, no behaviour).
+
+// VerifBitsState exposes the replay window's cursor and a copy of its bitmap words.
+func VerifBitsState(b *Bits) (current uint64, words []uint64) {
+	return b.current, append([]uint64(nil), b.bits...)
+}
+
+// VerifBitsLength exposes the configured window length.
+func VerifBitsLength(b *Bits) uint64 { return b.length }
